@@ -176,6 +176,7 @@ type hcSeen struct {
 	count   int
 	method  string
 	path    string
+	rawPath string // the path as it stood on the request line (before any decoding)
 	query   string
 	host    string
 	hdr     http.Header
@@ -491,6 +492,10 @@ func (c *hcChain) backendHandler(w http.ResponseWriter, req *http.Request) {
 	s.count++
 	s.attempts = append(s.attempts, body)
 	s.method, s.path, s.query, s.host = req.Method, req.URL.Path, req.URL.RawQuery, req.Host
+	s.rawPath = req.RequestURI
+	if i := strings.IndexByte(s.rawPath, '?'); i >= 0 {
+		s.rawPath = s.rawPath[:i]
+	}
 	s.hdr = req.Header.Clone()
 	s.body, s.bodyErr = body, berr
 	s.te = req.TransferEncoding
